@@ -1,0 +1,29 @@
+// Copyright 2024 The Mellium Contributors.
+// Use of this source code is governed by the BSD 2-clause
+// license that can be found in the LICENSE file.
+
+//go:build verif
+
+// Package verifhook provides named yield points that a verification harness
+// can use to force goroutine schedules. Without the "verif" build tag Yield is
+// an empty function.
+package verifhook // import "mellium.im/xmpp/internal/verifhook"
+
+import "sync/atomic"
+
+var hook atomic.Value // of func(string)
+
+// Set installs f as the function called at every yield point (nil removes it).
+func Set(f func(point string)) {
+	if f == nil {
+		f = func(string) {}
+	}
+	hook.Store(f)
+}
+
+// Yield calls the installed hook, if any, with the name of the yield point.
+func Yield(point string) {
+	if f, ok := hook.Load().(func(string)); ok && f != nil {
+		f(point)
+	}
+}
